@@ -33,4 +33,27 @@ theorem mul_one_round (debt : Int) : Dec.roundInt (Dec.mul Dec.one (Dec.ofInt de
   have : P * (debt * P) = (debt * P) * P := Int.mul_comm _ _
   rw [this, chopRound_mul_P, chopRound_mul_P]
 
+theorem sumInts_foldl (l : List Int) (a : Int) : l.foldl (· + ·) a = a + sumInts l := by
+  unfold sumInts
+  induction l generalizing a with
+  | nil => simp
+  | cons x xs ih =>
+    simp only [List.foldl_cons]
+    rw [ih (a + x), ih (0 + x)]; omega
+
+theorem sumInts_cons (x : Int) (xs : List Int) : sumInts (x :: xs) = x + sumInts xs := by
+  have := sumInts_foldl xs (0 + x)
+  unfold sumInts at this ⊢
+  simp only [List.foldl_cons]
+  rw [this]; omega
+
+theorem sumInts_nonneg (l : List Int) (h : ∀ x ∈ l, 0 ≤ x) : 0 ≤ sumInts l := by
+  induction l with
+  | nil => decide
+  | cons x xs ih =>
+    rw [sumInts_cons]
+    have := h x (by simp)
+    have := ih (fun y hy => h y (by simp [hy]))
+    omega
+
 end KV.Safe
